@@ -72,6 +72,31 @@ def stores_stage(c):
                         bad, a[1], i, seq[i]['op'], json.dumps(x)[:160], json.dumps(y)[:160]),
                     {'ops': seq[:i + 1], 'ram': x, 'sql': y})
         break
+  # directed: a trial named by a non-canonical decimal string ('02' is what int() maps to trial 2) is the trial;
+  # the update is stored on both datastores, last writer wins inside one request ('2', '02', '2' again)
+  trial0 = lambda i: {'id': i, 'state': 'ACTIVE', 'client': 'w', 'params': i, 'meas': [], 'final': None, 'reason': '', 'md': []}
+  for alias in ('02', '+2', ' 2', '2 '):
+    seq = [{'op': 'createStudy', 'k': ['o', 's'], 'head': head0},
+           {'op': 'createTrial', 'k': ['o', 's'], 'trial': trial0(1)},
+           {'op': 'createTrial', 'k': ['o', 's'], 'trial': trial0(2)},
+           {'op': 'updateMetadata', 'k': ['o', 's'], 'study': [['', 'k', 'v']],
+            'trials': [['2', [['', 'q', 'a']]], [alias, [['', 't', 'v'], ['', 'q', 'b']]], ['2', [['', 'q', 'c']]]]},
+           {'op': 'getTrial', 'k': ['o', 's'], 'id': 2},
+           {'op': 'getTrial', 'k': ['o', 's'], 'id': 1}]
+    a, b = stores.run_real('ram', seq), stores.run_real('sql', seq)
+    c.traces += 2
+    c.count(1, ('stores-alias-id', alias), kind='store:updateMetadata:alias-trial-id')
+    want = [['', 'q', 'c'], ['', 't', 'v']]
+    for kind, out in (('ram', a), ('sql', b)):
+      got = out[4].get('md') if isinstance(out[4], dict) else out[4]
+      if out[3] != 'ok' or got != want or (isinstance(out[5], dict) and out[5].get('md')):
+        c.prop_fail('update-metadata-alias-trial-id-lost',
+                    'update_metadata naming trial 2 as %r answered %s on the %s datastore and trial 2 then carries %s (trial 1: %s); written last: %s' % (
+                        alias, json.dumps(out[3])[:80], kind, json.dumps(got)[:160], json.dumps(out[5].get('md') if isinstance(out[5], dict) else out[5])[:80], json.dumps(want)),
+                    {'ops': seq, 'backend': kind, 'answers': out})
+    if a != b:
+      c.prop_fail('datastores-differ:updateMetadata-alias-trial-id', 'update_metadata naming trial 2 as %r: ram=%s sql=%s' % (alias, json.dumps(a[3:])[:200], json.dumps(b[3:])[:200]),
+                  {'ops': seq, 'ram': a, 'sql': b})
   # the orphan witness: the flag documents which behaviour the current tree has
   w_ram, w_sql = stores.run_real('ram', seqs[0]), stores.run_real('sql', seqs[0])
   c.flags['sqlCreateTrialChecksStudy'] = (w_sql[0] != 'ok')
